@@ -106,6 +106,7 @@ def c02(chk, opts):
         sig = {"flop": cfg["flop"], "ranges": [[e["c"] for e in r] for r in cfg["ranges"]], "from": cfg["from"], "to": cfg["to"]}
         chk.violation("event %d is not a step FlopEnum allows: %s   [in the block opened at line %d: %s]" % (line, ev[:200], bline, blk[:300]),
                       sig, {"gen": ["c02"], "block": cfg, "rejected_event": json.loads(ev), "line": line})
+    _odometer_binding(chk, thorough)
     i = 0
     for e in events:
         if e.startswith('{"op":"new"') and i < 3:
@@ -119,6 +120,33 @@ def c02(chk, opts):
                            "ranges of 255/256/257/300/1326 combos; every yield validated as a FlopEnum step (legal, in scope, once, position order, product), "
                            "every position completed is counted against CountLegal",
                       extra={"blocks": blocks, "showdowns": nexts})
+
+
+def _odometer_binding(chk, thorough):
+    """implementation-level binding of FlopOdometer through the guarded accessors in /repo: informational only"""
+    rc, out = run(["cargo", "build", "--offline", "--release", "--features", "hook", "--target-dir", "target-hook", "--bin", "hx"], cwd=HARNESS, timeout=1800)
+    if rc != 0:
+        chk.note("I-level binding skipped: the harness does not build with the hook feature (accessors verif_state/verif_entries missing in /repo?)")
+        return
+    trace = chk.path("odometer.ndjson")
+    rc, out = run([os.path.join(HARNESS, "target-hook", "release", "hx"), "odometer", "--seed", str(chk.seed), "--family-stride", "10" if thorough else "40",
+                   "--n", "400" if thorough else "60", "--out", trace], timeout=1800, mem_gb=24)
+    if rc != 0:
+        chk.note("I-level binding skipped: odometer recorder failed")
+        return
+    try:
+        r = tlc("TraceOdometer", cfg="TraceOdometer.cfg", env={"TRACE": trace}, timeout=1800, heap="6g", allow_violation=True, **SEQ)
+    except ToolError as x:
+        chk.note("I-level binding skipped: " + str(x)[:200])
+        return
+    chk.add_tlc(r, "TraceOdometer(I-level, via hook)")
+    n = len(read_events(trace))
+    m = re.search(r'<<"REJECTED", (\d+)>>', r.raw)
+    if m:
+        chk.note("MODEL-DRIFT (informational, no verdict): the iterator's internal state after call %s differs from FlopOdometer's (trace of %d calls)" % (m.group(1), n))
+    else:
+        chk.note("I-level binding: %d calls of next(), the iterator's (turn, river, digits) after each call equal FlopOdometer's" % n)
+    chk.parts["odometer_calls"] = n
 
 
 def _selftest_c02(chk, events):
